@@ -25,4 +25,25 @@ PROPS_ADD = {
         "design_ref": "7/C32", "assumptions": E2_ASSUME,
         "real": ["utils.WaterMark"],
     },
+    "C20": {
+        "engine": "unitsim", "level": "exploration", "budget": {"quick": 15, "thorough": 600},
+        "title": "Key latches exclude overlapping requests without deadlock",
+        "technique": "deterministic simulation: 2-4 tasks Acquire/hold/Release (sometimes twice) generated key sets on a real latch.Manager with 1-8 stripes; every stripe acquisition is a scheduling point and a contended stripe a parking point; exclusion, latch ownership and progress checked after every step",
+        "rule": "case = seeded key-set patterns (stripe.variant lists with duplicates, empty and colliding keys) for 2-4 tasks + stripe count + scheduler stickiness; after every step: no two holders share a non-empty key, every holder's stripes are still locked, and not every unfinished task waits on a held stripe; distinct = distinct event-trace hash (includes the schedule); non-trivial = some task actually waited on a contended stripe",
+        "level_text": "Seeded search over acquisition interleavings with a holder model; deadlock is decided exactly at the explored state (all unfinished tasks wait on held stripes), exclusion by comparing holders' key sets. Right level because the property quantifies over all key sets and schedules; the state is tiny, so tens of thousands of schedules fit the quick tier.",
+        "note": "Trusted: the holder bookkeeping of the harness and the interpretation that sharing is evaluated over non-empty keys (empty keys are generated but latch nothing by design of Acquire). Keys are materialised per process from stripe patterns because kv.MemHash is process-seeded.",
+        "design_ref": "7/C20", "assumptions": E2_ASSUME,
+        "real": ["percolator/latch.Manager"],
+    },
+    "C33": {
+        "engine": "unitsim", "level": "exploration", "budget": {"quick": 15, "thorough": 600},
+        "title": "At most one database holds a working directory at a time",
+        "technique": "deterministic simulation: 2-3 contenders loop utils.AcquireDirLock/hold/Release on one directory through SimFS (real files, real flock); every file-system call of a contender and the verif site between unlock and unlink are scheduling points; a fraction of the runs opens and closes whole NoKV.DBs instead",
+        "rule": "case = seeded acquire/hold/release loops for 2-3 contenders + scheduler stickiness (+ db variant); after every step at most one contender is between a successful acquire and the start of its release; distinct = distinct event-trace hash (includes the schedule and the FS events); non-trivial = at least one acquisition was refused because the directory was in use",
+        "level_text": "Seeded search over interleavings of the lock-file operations (open/create, flock, truncate, write, sync, unlock, close, unlink) of several contenders with a holder count as oracle. Right level because the property quantifies over all schedules of opens and closes; contenders in one process stand for several processes because flock arbitrates open file descriptions.",
+        "note": "Trusted: the kernel's flock on /dev/shm (tmpfs) as the arbiter, SimFS forwarding to the real file system, and the harness's holder bookkeeping (holding = Acquire/Open returned successfully and Release/Close not yet invoked).",
+        "design_ref": "7/C33", "assumptions": E2_ASSUME,
+        "real": ["utils.DirLock (flock on a real LOCK file)", "NoKV.DB Open/Close (db variant)"],
+        "stub": ["disk = real directory on /dev/shm behind SimFS"],
+    },
 }
